@@ -26,13 +26,13 @@ ASSUMPTIONS = [
     "the accept queue, eviction and the zombie check (C16/QModel.v) are private to Server: their model is tied to the code by the translator (the statements it mirrors) and exercised by the black-box storms with / without evict_on_queue_full and the zombie-check configurations, not by an in-process correspondence; select_nth_unstable's choice among equally old entries is left open (the theorems do not depend on it)",
     "the nesting of the two private maps (cluster -> ip -> count, token -> cluster -> ips) is flattened in the model; their sizes are compared through the cfg(sozu_verif) footprint accessor",
 ]
-TRUSTED = ["poule::Pool hands out a buffer iff used < capacity (modelled, compared on every pool case)", "translator props/c16.py:translate reads from lib/src/server.rs (comments and assertions stripped, functions by name, constants resolved, either operand order, one-level private helpers / let bindings followed) the check_limits comparison, the numbers of the accept gate 10 + 2*max / 10 reserved, the decr re-enable expression and the saturating untrack; a construct it cannot recognise is reported as `unreadable:` and the tie for that run is the correspondence check on the larger search batch (TRANSLATE_FALLBACK); the accept-queue / eviction / zombie statements mirrored by QModel.v are matched with free local names and stay hard"]
+TRUSTED = ["poule::Pool hands out a buffer iff used < capacity (modelled, compared on every pool case)", "translator props/c16.py:translate reads from lib/src/server.rs (comments and assertions stripped, functions by name, constants resolved, either operand order, one-level private helpers / let bindings followed) the check_limits comparison, the numbers of the accept gate 10 + 2*max / 10 reserved, the decr re-enable expression and the saturating untrack; and the accept-queue / eviction / zombie statements mirrored by QModel.v (free local names); every pin is hard: found-but-different and not-found both fail the check"]
 
 
 # The translator reads FACTS (numbers, operators), not spelling: comments and assertions are stripped, functions are
 # found by name, locals / private names are `\w+`, named constants are looked up, `a < b` = `b > a`, and a
 # sub-expression may sit in a one-level private helper.  Recognised with another value: hard failure; not
-# recognised: `unreadable: ...` (soft, see TRANSLATE_FALLBACK) for the facts the correspondence run observes.
+# recognised or not found: hard failure as well (no soft pins in this translator).
 
 import rustmini
 
@@ -98,66 +98,96 @@ def _inline_helper(src, expr):
 
 def _inline_lets(body):
     """`let x = <one-line expression>;` substituted into the rest of the body"""
-    for m in list(re.finditer(r"\blet\s+(\w+)(?:\s*:\s*\w+)?\s*=\s*([^;{}]+);", body)):
+    pos = 0
+    rx = re.compile(r"\blet\s+(\w+)(?:\s*:\s*\w+)?\s*=\s*([^;{}]+);")
+    while True:
+        m = rx.search(body, pos)
+        if not m:
+            return body
         name, expr = m.group(1), _ws(m.group(2))
         head, tail = body[:m.end()], body[m.end():]
         body = head + re.sub(r"(?<![\w.])%s\b(?!\s*\()" % re.escape(name), "(" + expr + ")", tail)
-    return body
+        pos = m.end()
 
 
-def _translate():
+def _flat(src, body, consts):
+    """a function body with let bindings, one-level helpers and constants substituted, blanks removed and the
+    parentheses around atoms dropped: the small expressions below are compared in this form"""
+    r = _resolve(_inline_helper(src, _inline_lets(body)), consts)
+    r = re.sub(r"\s+", "", r)
+    for _ in range(6):
+        r = re.sub(r"(?<![\w])\((\d+|\w+|self\.\w+(?:\(\))?)\)", r"\1", r)
+    return r
+
+
+def translate():
+    """Every pin of this translator is hard: a construct that is found and is not the modelled one, or that is
+    not found, fails the check (no TRANSLATE_FALLBACK)."""
     fails = []
     try:
         sv = rustmini.strip(open(os.path.join(vlib.REPO, "lib/src/server.rs")).read())
     except (OSError, rustmini.Unrecognised) as ex:
-        return ["unreadable: server.rs: %s" % ex]
+        return ["server.rs could not be read: %s" % ex]
     consts = _consts(sv)
     mc = r"self\.max_connections"
     # 1. check_limits refuses at nb_connections >= max_connections
     b = _body(sv, "check_limits")
     op, _ = _cmp(b, r"self\.nb_connections", mc) if b else (None, -1)
     if op is None:
-        fails.append("unreadable: server.rs: check_limits: the test `nb_connections >= max_connections` not found (model: take_in refuses at the cap)")
+        fails.append("server.rs: check_limits: the test `nb_connections >= max_connections` not found (model: take_in refuses at the cap)")
     elif op != ">=":
         fails.append("server.rs: check_limits refuses when nb_connections %s max_connections (model: >=)" % op)
     # 2. the accept gate: 10 + 2 * max_connections
     b = _body(sv, "accept_slab_threshold")
-    r = _resolve(_inline_helper(sv, b), consts) if b else ""
-    m = (re.search(r"\b(?P<a>\d+)\s*\+\s*(?P<b>\d+)\s*\*\s*%s" % mc, r) or re.search(r"\b(?P<a>\d+)\s*\+\s*%s\s*\*\s*(?P<b>\d+)" % mc, r)
-         or re.search(r"%s\s*\*\s*(?P<b>\d+)\s*\+\s*(?P<a>\d+)" % mc, r) or re.search(r"\b(?P<b>\d+)\s*\*\s*%s\s*\+\s*(?P<a>\d+)" % mc, r))
+    r = _flat(sv, b, consts) if b else ""
+    m = (re.search(r"(?<![\w.])(?P<a>\d+)\+(?P<b>\d+)\*%s" % mc, r) or re.search(r"(?<![\w.])(?P<a>\d+)\+%s\*(?P<b>\d+)" % mc, r)
+         or re.search(r"%s\*(?P<b>\d+)\+(?P<a>\d+)" % mc, r) or re.search(r"(?<![\w.])(?P<b>\d+)\*%s\+(?P<a>\d+)" % mc, r))
     if not m:
-        fails.append("unreadable: server.rs: accept_slab_threshold: `10 + 2 * max_connections` not found (model: gate)")
+        fails.append("server.rs: accept_slab_threshold is not recognised as `10 + 2 * max_connections` (model: gate): " + r[:120])
     elif (int(m.group("a")), int(m.group("b"))) != (10, 2):
         fails.append("server.rs: accept_slab_threshold is %s + %s * max_connections (model: 10 + 2 * max_connections)" % (m.group("a"), m.group("b")))
     # 3. at_capacity: slab.len() >= threshold + not_sessions.saturating_sub(10)
     b = _body(sv, "at_capacity")
-    r = _resolve(b, consts) if b else ""
-    m = re.search(r"self\.slab\.len\(\)\s*(<=|>=|<|>)\s*(\w+)\s*\+\s*(\w+)\s*\.\s*saturating_sub\(\s*(\d+)\s*\)", r) \
-        or re.search(r"self\.slab\.len\(\)\s*(<=|>=|<|>)\s*(\w+)\s*\.\s*saturating_sub\(\s*(\d+)\s*\)\s*\+\s*(\w+)", r)
+    r = _flat(sv, b, consts) if b else ""
+    thr = r"(?:self\.accept_slab_threshold\(\)|\w+)"
+    budget = r"\(?(?:%s\+\w+\.saturating_sub\((?P<n%%d>\d+)\)|\w+\.saturating_sub\((?P<n%%d>\d+)\)\+%s)\)?" % (thr, thr)
+    m = re.search(r"self\.slab\.len\(\)(?P<op><=|>=|<|>)" + budget % (1, 2), r)
+    flipped = False
+    if not m:
+        m = re.search(budget % (1, 2) + r"(?P<op><=|>=|<|>)self\.slab\.len\(\)", r)
+        flipped = True
     if not m or "accept_slab_threshold" not in r:
-        fails.append("unreadable: server.rs: at_capacity: `slab.len() >= accept_slab_threshold() + not_sessions.saturating_sub(10)` not found (model: gate_closed)")
+        fails.append("server.rs: at_capacity is not recognised as `slab.len() >= accept_slab_threshold() + not_sessions.saturating_sub(10)` (model: gate_closed): " + r[-160:])
     else:
-        n = [g for g in m.groups()[1:] if g.isdigit()]
-        if m.group(1) != ">=" or n != ["10"]:
-            fails.append("server.rs: at_capacity is slab.len() %s threshold + not_sessions.saturating_sub(%s) (model: >=, 10 reserved entries)" % (m.group(1), ",".join(n)))
+        op = _FLIP[m.group("op")] if flipped else m.group("op")
+        n = m.group("n1") or m.group("n2")
+        if op != ">=" or n != "10":
+            fails.append("server.rs: at_capacity is slab.len() %s threshold + not_sessions.saturating_sub(%s) (model: >=, 10 reserved entries)" % (op, n))
     # 4. decr re-opens the gate below (max_connections * 90 / 100).max(1)
     b = _body(sv, "decr")
-    r = _resolve(_inline_helper(sv, _inline_lets(b)), consts) if b else ""
-    r = re.sub(r"\(\s*\(([^()]*(?:\([^()]*\)[^()]*)*)\)\s*\)", r"(\1)", r)
-    m = re.search(r"!\s*self\.can_accept\s*&&\s*self\.nb_connections\s*(<=|<)\s*\(?\s*\(\s*%s\s*\*\s*(\d+)\s*/\s*(\d+)\s*\)\s*\.\s*max\(\s*(\d+)\s*\)" % mc, r)
+    r = _flat(sv, b, consts) if b else ""
+    rhs = r"\(?\(%s\*(?P<p>\d+)/(?P<q>\d+)\)\.max\((?P<c>\d+)\)\)?" % mc
+    m = re.search(r"!self\.can_accept&&self\.nb_connections(?P<op><=|<|>=|>)" + rhs, r)
+    flipped = False
     if not m:
-        fails.append("unreadable: server.rs: decr: `!can_accept && nb_connections < (max_connections * 90 / 100).max(1)` not found (model: resume_threshold)")
-    elif (m.group(1), m.group(2), m.group(3), m.group(4)) != ("<", "90", "100", "1"):
-        fails.append("server.rs: decr re-enables can_accept at nb_connections %s (max_connections*%s/%s).max(%s) (model: < (max_connections*90/100).max(1))" % m.groups())
+        m = re.search(r"!self\.can_accept&&" + rhs + r"(?P<op><=|<|>=|>)self\.nb_connections", r)
+        flipped = True
+    if not m:
+        fails.append("server.rs: decr is not recognised as re-enabling can_accept when `!can_accept && nb_connections < (max_connections * 90 / 100).max(1)` (model: resume_threshold): "
+                     + (re.search(r"if!?self\.can_accept[^{]*", r) or re.search(r"^.{0,160}", r, re.S)).group(0)[:160])
+    else:
+        op = _FLIP[m.group("op")] if flipped else m.group("op")
+        if (op, m.group("p"), m.group("q"), m.group("c")) != ("<", "90", "100", "1"):
+            fails.append("server.rs: decr re-enables can_accept at nb_connections %s (max_connections*%s/%s).max(%s) (model: < (max_connections*90/100).max(1))" % (op, m.group("p"), m.group("q"), m.group("c")))
     # 5. untrack: saturating decrement, the entry is reaped at zero
     b = _body(sv, "untrack_all_cluster_ip")
     m = b and re.search(r"\*\s*(\w+)\s*=\s*\1\s*\.\s*saturating_sub\(\s*(\w+)\s*\)\s*;\s*if\s+\*\s*\1\s*==\s*0\s*\{\s*\w+\.remove\(\)\s*;", _resolve(b, consts))
     if not m:
-        fails.append("unreadable: server.rs: untrack_all_cluster_ip: `*count = count.saturating_sub(1); if *count == 0 { inner.remove(); }` not found")
+        fails.append("server.rs: untrack_all_cluster_ip is not recognised as `*count = count.saturating_sub(1); if *count == 0 { inner.remove(); }`")
     elif m.group(2) != "1":
         fails.append("server.rs: untrack_all_cluster_ip decrements by %s (model: 1)" % m.group(2))
-    # the statements C16/QModel.v mirrors (accept queue, eviction, zombie check are private to Server: exercised by
-    # the black-box stage, not observed op by op, so these stay hard; spelled with free local names)
+    # the statements C16/QModel.v mirrors (accept queue, eviction, zombie check are private to Server), spelled with
+    # free local names
     flat = _resolve(_no_asserts(sv), consts)
     for pat, what in [
         (r"self\.accept_queue\s*\.\s*push_back\(", "Server::accept no longer push_back()s the accepted socket"),
@@ -171,22 +201,6 @@ def _translate():
         if not re.search(pat, flat):
             fails.append("server.rs: " + what + " (model: C16/QModel.v)")
     return fails
-
-
-def translate():
-    try:
-        return _translate()
-    except (rustmini.Unrecognised, re.error, IndexError, AttributeError, TypeError) as ex:
-        return ["unreadable: server.rs: the translator could not read the file (%s: %s)" % (type(ex).__name__, ex)]
-
-
-TRANSLATE_FALLBACK = ("the facts marked soft (refusal at nb_connections >= max_connections, the accept gate 10 + 2 * max_connections with "
-                      "10 reserved entries, the re-opening threshold (max_connections*90/100).max(1), the saturating per-(cluster,ip) "
-                      "decrement reaped at zero) determine what the driver prints after every accept / close / track / check of the real "
-                      "SessionManager (granted or refused, can_accept, nb_connections, slab fill, per-ip counts), on histories whose slab "
-                      "fill is drawn at 9/10/11 + 2*max_connections, with max_connections from 0 to 10 (90% of 10 = 9; the .max(1) "
-                      "clamp at 1) and per-ip limits 0..3; the accept-queue / eviction / zombie-check statements are not observed that "
-                      "way and stay hard")
 
 
 def history(rng, cid):
